@@ -141,10 +141,10 @@ theorem parse_file {e : ExtVal} {ref f : String} (h : parse e = .ok (ref, some f
   split at h <;> simp_all
 
 /-- what `locate` returns stays inside the refUniverse -/
-theorem locate_ok {fs : FS} {main : String} {svcs0 svcs : Services} {name : String} {e : ExtVal}
+theorem locate_ok {fs : FS} {main cur : String} {svcs0 svcs : Services} {name : String} {e : ExtVal}
     {ref file : String} {target : Option Services}
-    (hinv : Inv fs main svcs0 svcs) (hl : lookup name svcs = some (.ext e))
-    (h : locate fs main svcs e = .ok (ref, file, target)) :
+    (hinv : Inv fs main svcs0 svcs) (hcur : cur ∈ allFiles fs main svcs0) (hl : lookup name svcs = some (.ext e))
+    (h : locate fs cur svcs e = .ok (ref, file, target)) :
     file ∈ allFiles fs main svcs0 ∧ Inv fs main svcs0 (target.getD svcs) := by
   unfold locate at h
   split at h
@@ -153,7 +153,7 @@ theorem locate_ok {fs : FS} {main : String} {svcs0 svcs : Services} {name : Stri
     split at h
     · cases h
     · cases h
-      exact ⟨List.mem_cons_self .., hinv⟩
+      exact ⟨hcur, hinv⟩
   · rename_i ref' f hp
     have he := parse_file hp
     subst he
@@ -186,12 +186,13 @@ theorem locate_ok {fs : FS} {main : String} {svcs0 svcs : Services} {name : Stri
 /-- the recursion never runs out of fuel once the fuel exceeds the room left in the refUniverse,
 and the services map it hands back stays inside the refUniverse -/
 theorem resolve_ne_fuel (fs : FS) (main : String) (svcs0 : Services) :
-    ∀ (fuel : Nat) (svcs : Services) (name : String) (tr : Tracker),
+    ∀ (fuel : Nat) (cur : String) (svcs : Services) (name : String) (tr : Tracker),
+      cur ∈ allFiles fs main svcs0 →
       Inv fs main svcs0 svcs → tr.Nodup → (∀ r ∈ tr, r ∈ refUniverse fs main svcs0) →
       (refUniverse fs main svcs0).length - tr.length < fuel →
-      (resolve fs main fuel svcs name tr).1 ≠ .outOfFuel ∧ Inv fs main svcs0 (resolve fs main fuel svcs name tr).2.2
-  | 0, _, _, _, _, _, _, hf => by omega
-  | fuel + 1, svcs, name, tr, hinv, hn, hsub, hf => by
+      (resolve fs cur fuel svcs name tr).1 ≠ .outOfFuel ∧ Inv fs main svcs0 (resolve fs cur fuel svcs name tr).2.2
+  | 0, _, _, _, _, _, _, _, _, hf => by omega
+  | fuel + 1, cur, svcs, name, tr, hcur, hinv, hn, hsub, hf => by
     unfold resolve
     split
     · exact ⟨by simp, hinv⟩
@@ -211,7 +212,7 @@ theorem resolve_ne_fuel (fs : FS) (main : String) (svcs0 : Services) :
         repeat' split at hloc
         all_goals simp_all
       · rename_i ref file target hloc
-        obtain ⟨hfile, hinv'⟩ := locate_ok hinv hl hloc
+        obtain ⟨hfile, hinv'⟩ := locate_ok hinv hcur hl hloc
         split
         · exact ⟨by simp, hinv⟩
         · rename_i tr' hadd
@@ -222,11 +223,11 @@ theorem resolve_ne_fuel (fs : FS) (main : String) (svcs0 : Services) :
             rw [htr'] at hr
             rcases List.mem_append.mp hr with h | h
             · exact hsub r h
-            · simp only [List.mem_singleton] at h; subst h; exact mem_universe hfile hname
+            · simp only [List.mem_singleton] at h; subst h; exact mem_universe hcur hname
           have hlen := nodup_subset_length _ _ hn' hsub'
           have hlen' : tr'.length = tr.length + 1 := by rw [htr']; simp
-          have ih := resolve_ne_fuel fs main svcs0 fuel (target.getD svcs) ref tr' hinv' hn' hsub' (by omega)
-          generalize hres : resolve fs main fuel (target.getD svcs) ref tr' = res at ih
+          have ih := resolve_ne_fuel fs main svcs0 fuel file (target.getD svcs) ref tr' hfile hinv' hn' hsub' (by omega)
+          generalize hres : resolve fs file fuel (target.getD svcs) ref tr' = res at ih
           obtain ⟨r1, b, s'⟩ := res
           simp only at ih
           have hinvr : Inv fs main svcs0 (if target.isSome = true then svcs else s') := by
@@ -253,7 +254,7 @@ theorem applyExtends_ne_fuel (fs : FS) (main : String) (svcs0 : Services) (fuel 
   | [], _, _ => by unfold applyExtends; intro h; cases h
   | n :: rest, svcs, hinv => by
     unfold applyExtends
-    have h := resolve_ne_fuel fs main svcs0 fuel svcs n [] hinv List.nodup_nil (by intro r hr; cases hr) (by simpa using hf)
+    have h := resolve_ne_fuel fs main svcs0 fuel main svcs n [] (List.mem_cons_self ..) hinv List.nodup_nil (by intro r hr; cases hr) (by simpa using hf)
     generalize resolve fs main fuel svcs n [] = res at h
     obtain ⟨r1, b, s'⟩ := res
     simp only at h
@@ -304,11 +305,56 @@ theorem forever_of_fixpoint {fs : FS} {main : String} {st : Services × String} 
   | zero => simp [iter]
   | succ k ih => simpa [iter, h] using ih
 
-theorem resolve_forever (fs : FS) (main : String) : ∀ (fuel : Nat) (svcs : Services) (name : String) (tr : Tracker),
+/-- where a reference points does not depend on the current file's name (only the tracker key does) -/
+theorem locate_irrel (fs : FS) (m1 m2 : String) (svcs : Services) (e : ExtVal) :
+    (match locate fs m1 svcs e with | .ok (ref, _, target) => some (ref, target) | .error _ => none) =
+    (match locate fs m2 svcs e with | .ok (ref, _, target) => some (ref, target) | .error _ => none) := by
+  unfold locate
+  cases parse e with
+  | error c => rfl
+  | ok v =>
+    obtain ⟨ref, fo⟩ := v
+    cases fo with
+    | none => simp only; cases lookup ref svcs <;> rfl
+    | some f => rfl
+
+theorem next_irrel (fs : FS) (m1 m2 : String) (st : Services × String) : next fs m1 st = next fs m2 st := by
+  unfold next
+  split
+  · rename_i e _
+    have h := locate_irrel fs m1 m2 st.1 e
+    cases h1 : locate fs m1 st.1 e with
+    | error r1 =>
+      cases h2 : locate fs m2 st.1 e with
+      | error r2 => rfl
+      | ok v2 => obtain ⟨a, b, c⟩ := v2; simp [h1, h2] at h
+    | ok v1 =>
+      obtain ⟨a1, b1, c1⟩ := v1
+      cases h2 : locate fs m2 st.1 e with
+      | error r2 => simp [h1, h2] at h
+      | ok v2 =>
+        obtain ⟨a2, b2, c2⟩ := v2
+        simp only [h1, h2, Option.some.injEq, Prod.mk.injEq] at h
+        obtain ⟨ha, hc⟩ := h
+        subst ha; subst hc; rfl
+  · rfl
+
+theorem iter_irrel (fs : FS) (m1 m2 : String) : ∀ (k : Nat) (st : Services × String), iter fs m1 k st = iter fs m2 k st
+  | 0, _ => rfl
+  | k + 1, st => by
+    simp only [iter, next_irrel fs m1 m2 st]
+    cases next fs m2 st with
+    | none => rfl
+    | some st' => simp [iter_irrel fs m1 m2 k st']
+
+theorem Forever.irrel {fs : FS} {m1 : String} (m2 : String) {st : Services × String} (h : Forever fs m1 st) :
+    Forever fs m2 st := fun k => iter_irrel fs m1 m2 k st ▸ h k
+
+theorem resolve_forever (fs : FS) : ∀ (fuel : Nat) (main : String) (svcs : Services) (name : String) (tr : Tracker),
     Forever fs main (svcs, name) →
     (resolve fs main fuel svcs name tr).1 = .outOfFuel ∨ (resolve fs main fuel svcs name tr).1 = .err "circular"
-  | 0, _, _, _, _ => by unfold resolve; exact Or.inl rfl
-  | fuel + 1, svcs, name, tr, h => by
+  | 0, _, _, _, _, _ => by unfold resolve; exact Or.inl rfl
+  | fuel + 1, main, svcs, name, tr, h => by
     obtain ⟨st', hnext, hfor⟩ := h.step
     unfold next at hnext
     simp only at hnext
@@ -323,8 +369,8 @@ theorem resolve_forever (fs : FS) (main : String) : ∀ (fuel : Nat) (svcs : Ser
         split
         · exact Or.inr rfl
         · rename_i tr' _
-          have ih := resolve_forever fs main fuel (target.getD svcs) ref tr' hfor
-          generalize resolve fs main fuel (target.getD svcs) ref tr' = res at ih
+          have ih := resolve_forever fs fuel file (target.getD svcs) ref tr' (hfor.irrel file)
+          generalize resolve fs file fuel (target.getD svcs) ref tr' = res at ih
           obtain ⟨r1, b, s'⟩ := res
           simp only at ih
           rcases ih with ih | ih <;> subst ih <;> simp
